@@ -205,7 +205,7 @@ class Record:
                 v = field_type(v)
         super().__setattr__(k, v)
 
-    def _replace(self, **kwds):
+    def _replace(self, /, **kwds):
         result = self.__class__(*map(kwds.pop, self.__slots__, (getattr(self, k) for k in self.__slots__)))
         if kwds:
             raise ValueError("Got unexpected field names: {kwds!r}".format(kwds=list(kwds)))
@@ -305,7 +305,7 @@ class GroupedRecord(Record):
             tuple(record._pack(unversioned=unversioned, excluded_fields=excluded_fields) for record in self.records),
         )
 
-    def _replace(self, **kwds):
+    def _replace(self, /, **kwds):
         new_records = []
         for record in self.records:
             new_records.append(
